@@ -198,4 +198,6 @@ def run(ctx):
             joined[:300], detail, "; ".join(can)[:300]), {"library": list(lib), "canonical": list(can)})
     for key, lst in sorted(agg.items()):
         ctx.violation(key, "%s  [%d case(s)]" % (lst[0][0][:700], len(lst)), lst[0][1])
+    srcs = {s.split("/")[0] for s in uniq.values()}
+    ctx.require(srcs >= {"rule", "block", "log", "directive"} and programs >= 1000, "sources judged: %s, programs %d" % (sorted(srcs), programs))
     ctx.extra.update({"programs": programs, "disagreements_checked": disagreements, "jobs": len(jobs)})
